@@ -101,6 +101,7 @@ class Python2VerilogTranspiler:
         node = ReplaceConstant().visit(node)
         node = ReplaceAssign().visit(node)
         node = ReplaceIfExp().visit(node)
+        node = ReplaceDocStrings().visit(node)
  
         node.wires.variables = wiresAndVars.variables.values();
         # node = FlattenOperators().visit(node)
